@@ -218,22 +218,32 @@ theorem nested_eq_unrolled : ∀ {ι E : Type} (p : Plan R ι E) (i : ι) (env :
 
 end Plan
 
-/-- FULL STATEMENT (not proved in this generality, kept visible):
+/-- FULL STATEMENT (kept visible):
 
       sum_product_exact :  psp G = ok results  →  Π results = unroll G
 
     for the executable `FV.C09.psp` / `FV.C09.unroll` over a lawful commutative semiring.
-    What is proved instead:
-      * `step_preserves_unroll` (+ `hlook_of_vars`, and section 4 for where its hypotheses come from):
-        each iteration preserves the ordinal-indexed unrolled value;
-      * `sum_product_exact_partial` below: the value the whole run returns (product of the results,
-        each a nested `Plan`) equals a flat sum over copies of the product of all input-factor
-        instances, for runs of any length and nesting depth.
-    Missing: one statement composing the step theorem along an arbitrary run, i.e. that the
-    path-indexed copies of `Plan.Copies` coincide with the ordinal-indexed copies of `unroll` for every
-    graph the loop accepts (it needs the state of the loop as a single dependent type; the per-step
-    identification is `step_preserves_unroll`).  The executable loop is tied to these statements by the
-    run-time echo `psp = unroll` on every generated case. -/
+    Proved (second phase, `Props/C09/Run.lean`): `FV.Props.C09.Run.sum_product_exact` — the statement for
+    the SEMANTIC state machine of the loop (pending factors with their keys, fixed `var_to_ordinal`, live
+    variables, results), for every plate structure and every run (any maximal leaf, any component order),
+    by the loop invariant `Inv` and `compStep_val`/`elim_group`, with the copies of the unrolling concrete
+    (`XS`: one copy of a live variable per assignment of its ordinal).
+    Towards the executable model (`Props/C09/Exec.lean`, all about `FV.C09` itself): `chooseLeaf_max`
+    (leaf maximal), `partition_perm` / `partition_closed` / `partition_groupvars_disjoint` (components are
+    a partition and share no leaf variable: hypotheses `hpend`, `closed` of `Run.CompStep`), and the
+    denotations of the dense-table operations `tabulate_eval`, `mulF_eval`, `reduceF_eval` (`ravel_spec`).
+    Still missing for the executable model, named precisely:
+      * `psp_refines_Reaches`: the abstraction function from the executable state (assoc-list of sorted
+        name lists ↦ dense tables, `Env` assoc-lists) to `Run.St` (finite name types, `Ctx`/value
+        functions), and the proof that every `FV.C09.component` call executed by `pspLoop` maps to a
+        `Run.CompStep` — it needs, besides the lemmas above, the list-as-set lemmas for
+        `sset`/`inter`/`diff`/`varOrdinals`/`addPending` and the identification of `newFac.fn` with the
+        denotation of `prodOut (sumOut (prodAll group))`;
+      * `unroll_eq_U`: the list enumeration `FV.C09.unroll` (`sumCopies`/`instProd` over assoc-lists)
+        equals `Run.U` of the denotations.
+    Both are covered at run time by the echo `psp = unroll` on every generated case.
+    The earlier partial results stay: `step_preserves_unroll` (abstract index types) and
+    `sum_product_exact_partial` below (nested plans equal their path-indexed flat unrolling). -/
 theorem sum_product_exact_partial {R : Type} [CommSemiring R] {Res E : Type} [Fintype Res] [DecidableEq Res]
     (results : Res → Plan R Unit E) (env : E) :
     ∏ r, (results r).eval () env
